@@ -20,7 +20,7 @@ SPELLINGS = [
     ("tree/", {"is-directory-structure": "true"}, "structure"),
     ("tree/", {"type": "directory-structure"}, "structure"),
 ]
-PATTERN_SETS = [None, None, ["*.tmp"], ["skip*", "*.o"], ["x?z"]]
+PATTERN_SETS = [None, None, ["*.tmp"], ["skip*", "*.o"], ["x?z"], ["*.tmp", "skip*", "x?z"], ["*.o", "*.tmp"]]
 
 
 def excluded(rel, patterns):
@@ -183,7 +183,9 @@ def expectation(kind_node, cls):
     if cls == "excluded-content":
         return "mustnot"
     if cls == "excluded-structural":
-        return "dontcare"
+        # a tree node also signs the mtime of the directory the hidden entry was added to, so it may re-run; a structure node signs
+        # names and types only, and hidden names are not among them
+        return "dontcare" if kind_node == "tree" else "mustnot"
     if cls == "structural-or-content":
         return "must" if kind_node == "tree" else "dontcare"
     return "dontcare"
@@ -292,7 +294,7 @@ def run(tier, replay):
                            "{no-op, add/remove/rename file or dir, retype, content with/without size change, mtime only, replace by rename, edits of excluded names, link retarget}, a new "
                            "process per build; three-valued expectation from the property text (pattern semantics = libc fnmatch via ctypes); observed = whether the consuming command appears "
                            "in its own run log; distinct = (node kind, patterns?, edit kind, depth, spelling) classes judged")
-        chk.assumptions = ["directory listings are only changed by the harness between builds", "replace-by-rename under a structure node and additions/removals of excluded names are not judged"]
+        chk.assumptions = ["directory listings are only changed by the harness between builds", "replace-by-rename under a structure node, and additions/removals of excluded names under a tree node (the parent directory's mtime is part of its signature), are not judged"]
     finally:
         shutil.rmtree(sd, ignore_errors=True)
     return chk.finish()
